@@ -5,6 +5,8 @@
 -/
 import ClairModel.Model.Gem
 
+set_option linter.unusedSimpArgs false
+
 namespace ClairModel.Gem
 open ClairModel.Order ClairModel.Version
 
